@@ -66,7 +66,8 @@ class VQueue:
 
     # --- consumer side (parent)
     def get(self, block=True, timeout=None):
-        return self.rig.route_get(self, blocking=True, waits=bool(block) and (timeout is None or timeout > 0))
+        return self.rig.route_get(self, blocking=True, waits=bool(block) and (timeout is None or timeout > 0),
+                                  forever=bool(block) and timeout is None)
 
     def get_nowait(self):
         return self.rig.route_get(self, blocking=False)
@@ -210,6 +211,7 @@ class VirtRig:
         self.prior = prior or []
         self.progress = progress     # observe the progress bars (a recording stand-in for labtech.lab.tqdm)
         self.ctx_fail = False
+        self.deadlock = False
         self.tnames = None
         self.dep_order = None
         self.int_lines = int_lines   # line-boundary injection: list of global line-event indices
@@ -238,6 +240,8 @@ class VirtRig:
                 w.events.append(rec)
             return
         self.trace.append(rec)
+        if self.deadlock and threading.current_thread() is self.main_thread:
+            raise RigHang('blocked for ever on the empty result queue: nothing alive could still report')
         if len(self.trace) > self.max_events:
             raise RigHang('too many events')
         e = rec['e']
@@ -452,7 +456,7 @@ class VirtRig:
         else:
             self.monq.append(item)
 
-    def route_get(self, q, blocking, waits=False):
+    def route_get(self, q, blocking, waits=False, forever=False):
         if blocking:
             # ProcessExecutor's consumer thread draining the result queue
             if waits and not self.resq:
@@ -465,6 +469,15 @@ class VirtRig:
                 self.phase = 'post'
             if self.resq:
                 return self.resq.pop(0)
+            if forever:
+                # a get without a timeout only returns when an item arrives: some running worker has to finish first; if
+                # none can (nothing is running, or what is running has died / will die) the coordinator is stuck for good
+                alive = [w for w in self.workers.values() if w.state == 'run' and not w.will_die]
+                if alive:
+                    self.finish(alive[0])
+                    if self.resq:
+                        return self.resq.pop(0)
+                self.deadlock = True          # (raised from the calling thread at its next step: this is the consumer thread)
             self.phase = 'idle'
             raise pyqueue.Empty()
         # get_nowait: the log queue or the monitor queue -- told apart by what they hold
